@@ -115,6 +115,10 @@ def correspond(ctx, scale):
                         if has_dead:
                             vq_p._codebook.cluster_size[h_, (h_ + pi) % 5] = 0.25      # dead unless the batch hits it hard
                             vq_p._codebook.cluster_size[h_, (h_ + pi + 2) % 5] = 0.5
+                            # BOUNDARY usages (decay 0.5, threshold 1): 2 * (1 - 5e-7) decays to just BELOW the threshold (dead: strictly below is below),
+                            # exactly 2 decays to exactly the threshold (live)
+                            vq_p._codebook.cluster_size[h_, (h_ + pi + 1) % 5] = 2.0 * (1.0 - 5e-7)
+                            vq_p._codebook.cluster_size[h_, (h_ + pi + 3) % 5] = 2.0
                     vq_p._codebook.embed_avg.copy_(vq_p._codebook.embed * vq_p._codebook.cluster_size[..., None])
                 vq_p.train()
                 ret, recs = vqrec.record_call(vq_p, vqrec.grid(rng, (1, 2, 2 * H)))
